@@ -70,6 +70,12 @@ def run(ctx):
             d = docgen.gen_doc(rng)
             bad = rng.choice(['<desc>x & y</desc>', '<title>a &b c</title>', '<1a/>', '<rect wh="2" text="a"/><b@d/>', '<text>AT&T</text>'])
             docs.append((d.replace('</svg>', bad + '</svg>'), 'malformed-input'))
+    # documents combining every feature (loops, reuse, connectors, containment, text placement ...): the output of each must be
+    # well-formed too
+    import docfuzz
+    frng = rng.fork('wf-fuzz')
+    for i in range(400 if quick else 8000):
+        docs.append((docfuzz.gen(frng)[0], 'fuzz'))
     # ---- byte streams: input whose events end inside a multi-byte sequence (or hold other invalid bytes). Whenever the
     #      transform of a byte stream succeeds, the bytes written are UTF-8 and well-formed
     bcases = []
